@@ -245,18 +245,18 @@ fn other_cases() -> Vec<Case> {
     }
     // tags
     let t = |v: &[&str]| Expect::Tags(v.iter().map(|s| s.to_string()).collect());
-    for (txt, e) in [("a", t(&["a"])), ("a, b", t(&["a", "b"])), (" a ,b ,, a", t(&["a", "b"])), ("a,,b,", t(&["a", "b"])), ("vegan, gluten free ,vegan", t(&["vegan", "gluten free"])), (",", t(&[]))] {
+    for (txt, e) in [("a", t(&["a"])), ("a, b", t(&["a", "b"])), (" a ,b ,, a", t(&["a", "b"])), ("a,,b,", t(&["a", "b"])), ("vegan, gluten free ,vegan", t(&["vegan", "gluten free"])), (",", t(&[])), ("ice  cream,  b", t(&["ice  cream", "b"]))] {
         push("tags", txt, &[0, 1], e);
     }
     for (txt, e) in [("[a, b]", t(&["a", "b"])), ("[a, b, a]", t(&["a", "b"])), ("[1, 2]", t(&["1", "2"])), ("[a]", t(&["a"])), ("[]", t(&[])), ("{a: b}", Expect::Rejected), ("5", Expect::Rejected), ("true", Expect::Rejected), ("[[a]]", Expect::Rejected), ("[a, {b: c}]", Expect::Rejected)] {
         push("tags", txt, &[2], e);
     }
     // name and url, the seven documented forms with valid and invalid urls
-    let valid = ["https://moms-cookbook.url", "http://a.b/c?d=e", "ftp://host"];
+    let valid = ["https://moms-cookbook.url", "http://a.b/c?d=e", "ftp://host", "https://a.b/my  book"];
     let invalid = ["notaurl", "foo bar", "example.com", "://x", "http://", "http:// x"];
     let nu = |n: Option<&str>, u: Option<&str>| Expect::NameUrl(n.map(|s| s.to_string()), u.map(|s| s.to_string()));
     for key in ["author", "source"] {
-        for name in ["Mom", "Mom's Cookbook", "A B C"] {
+        for name in ["Mom", "Mom's Cookbook", "A B C", "Rachel  R.  P"] {
             push(key, name, &[0, 1], nu(Some(name), None));
             for v in valid {
                 push(key, &format!("{name} <{v}>"), &[0, 1], nu(Some(name), Some(v)));
@@ -314,16 +314,22 @@ fn alias_entry(key: &str) -> Option<&'static str> {
     })
 }
 
-/// `alias_pos`: 0 = no other entry, 1 = the alias spelling of `std_key` (valid value) before the entry, 2 = after it
+/// `alias_pos`: 0 = no other entry, 1 = the alias spelling of `std_key` (valid value) before the entry, 2 = after it,
+/// 3 / 4 = a valid `prep time` entry before / after a `time` entry (also in the `>>` spelling)
 fn source_with_alias(std_key: &str, key: &str, text: &str, spelling: u8, alias_pos: u8) -> String {
-    let alias = if alias_pos == 0 { None } else { alias_entry(std_key) };
+    let alias = match alias_pos {
+        0 => None,
+        1 | 2 => alias_entry(std_key),
+        _ => (std_key == "time").then_some("prep time: 10"),
+    };
+    let pre = if spelling == 0 { ">> " } else { "" };
     let (before, after) = match (alias, alias_pos) {
-        (Some(a), 1) => (format!("{a}\n"), String::new()),
-        (Some(a), 2) => (String::new(), format!("{a}\n")),
+        (Some(a), 1 | 3) => (format!("{pre}{a}\n"), String::new()),
+        (Some(a), 2 | 4) => (String::new(), format!("{pre}{a}\n")),
         _ => (String::new(), String::new()),
     };
     match spelling {
-        0 => format!(">> {key}: {text}\nstep\n"),
+        0 => format!("{before}>> {key}: {text}\n{after}step\n"),
         1 => format!("---\n{before}{key}: \"{}\"\n{after}---\nstep\n", text.replace('\\', "\\\\").replace('"', "\\\"")),
         _ => format!("---\n{before}{key}: {text}\n{after}---\nstep\n"),
     }
@@ -338,9 +344,12 @@ fn n_errors(r: &cooklang::RecipeResult) -> usize {
 
 fn eval_case(parser: &CooklangParser, cname: &str, c: &Case) -> Option<Violation> {
     // front-matter entries are also checked next to another spelling of the same standard key
-    for alias_pos in 0..3u8 {
-        if alias_pos > 0 && (c.spelling == 0 || alias_entry(c.key).is_none()) {
-            break;
+    for alias_pos in 0..5u8 {
+        if matches!(alias_pos, 1 | 2) && (c.spelling == 0 || alias_entry(c.key).is_none()) {
+            continue;
+        }
+        if alias_pos >= 3 && (c.key != "time" || matches!(c.expect, Expect::Composed(..))) {
+            continue;
         }
         if let Some(v) = eval_case_at(parser, cname, c, alias_pos) {
             return Some(v);
@@ -365,7 +374,11 @@ fn eval_case_at(parser: &CooklangParser, cname: &str, c: &Case, alias_pos: u8) -
     if n_errors(&r) != 0 {
         fail!("error for a metadata value", "report {:?}", crate::oracles::diag_summary(r.report()));
     }
-    let extra = n_warnings(&r) as i64 - n_warnings(&b) as i64;
+    let mut extra = n_warnings(&r) as i64 - n_warnings(&b) as i64;
+    if alias_pos >= 3 && c.expect != Expect::Rejected {
+        // a valid `time` next to `prep time` may be announced as overriding it: not counted
+        extra = 0;
+    }
     let md = &o.metadata;
     let val = md.get(c.key);
     // accessor results
